@@ -2,8 +2,9 @@
  *
  * Real unit: src/teletext.c (included: vbi_format_vt_page, character_set_designation, screen_color, column_41).
  * Linked:    src/lang.c (vbi_teletext_unicode, vbi_font_descriptors), src/hamm.c (odd parity table).
- * Cut (DESIGN R2): struct caption (168 KB member of vbi_decoder, never touched by teletext.c) is replaced by a dummy
- * through the include guard of cc.h.  The decoder is a static zero object; only what vbi_format_vt_page() reads at
+ * Cut (DESIGN R2, models/c02fmt_carve.h): struct caption (168 KB) and the packet assembly buffers of struct teletext (45 KB),
+ * never touched by teletext.c, are carved out of vbi_decoder through the include guards of cc.h / teletext_decoder.h.
+ * The decoder is a static zero object; only what vbi_format_vt_page() reads at
  * Level 1 is set (vt.default_magazine.extension = EN 300 706 defaults as ttx_extension_init() builds them).
  *
  * The oracles (models/c02fmt_ref.h) are transcriptions of EN 300 706 12.2 Table 26 (spacing attributes),
@@ -11,15 +12,7 @@
 #include "verif.h"
 #include "ref_codes.h"
 
-#define CC_H
-#include <pthread.h>
-#include "src/bcd.h"
-#include "src/format.h"
-#ifndef VBI_DECODER
-#define VBI_DECODER
-typedef struct vbi_decoder vbi_decoder;
-#endif
-struct caption { int carved_out; };
+#include "c02fmt_carve.h"
 
 #ifdef VERIF_CBMC
 /* goto-cc turns calls of the printf family into output statements without side effects: the header text of row 0 would be
@@ -30,7 +23,7 @@ int c02fmt_snprintf(char *s, size_t n, const char *fmt, ...);
 #endif
 
 /* vbi_format_vt_page() walks the page with vtp->data.lop.raw[0][i++], i = 0..999: flat indexing of raw[26][40] through its
-   first row.  This stays inside data.lop (the exact-size page object below proves that) but is an index >= 40 into a
+   first row.  This stays inside data.lop (i <= 40 * 25 + 39; the guard area behind data.lop below checks it) but is an index >= 40 into a
    uint8_t[40] sub-object: standard-level UB that -fsanitize=bounds aborts on at the first byte of row 1.  It is recorded
    as a ub_note (DESIGN 3.2), and the array-index sanitizer is switched off for the functions of teletext.c only, so that
    native replays get as far as the property; ASan and the other UBSan checks stay on. */
@@ -49,16 +42,17 @@ int c02fmt_snprintf(char *s, size_t n, const char *fmt, ...);
 
 /* ---------------- harness parameters (runner grid) ---------------- */
 #ifndef FMT_FIRST
-#define FMT_FIRST 0          /* first symbolic column of row 1 */
+#define FMT_FIRST 0          /* first symbolic column of the row (>= 8 in the header row) */
 #endif
 #ifndef FMT_NSYM
 #define FMT_NSYM 10          /* number of symbolic columns; the others transmit SPACE */
 #endif
 #ifndef FMT_ROW
-#define FMT_ROW 1            /* page row carrying the symbolic window: 1 (display_rows 2: double height reaches row 2) or 24 (display_rows 25:
-                                the last row, where 12.2 forbids double height/size and the formatter's lower-row pass never runs) */
+#define FMT_ROW 1            /* page row under test: 0 (header row, display_rows 1), 24 (last row, display_rows 25) - in both double height/size
+                                are not used (12.2) and the formatter's lower-row pass never runs - or 1 (display_rows 2, double height reaches
+                                row 2; used with the concrete rows FMT_PLAN, see below) */
 #endif
-#define FMT_DISPLAY_ROWS ((FMT_ROW) == 1 ? 2 : (FMT_ROW) + 1)
+#define FMT_DISPLAY_ROWS ((FMT_ROW) == 1 ? 2 : (FMT_ROW) + 1)      /* row 0: header only (columns 0..7 are the decoder's page number text) */
 #ifndef FMT_NATIONAL
 #define FMT_NATIONAL 0       /* C12-C14 national option of the page (Table 32 region 0: 0 English ... 6 Czech/Slovak) */
 #endif
@@ -66,7 +60,7 @@ int c02fmt_snprintf(char *s, size_t n, const char *fmt, ...);
 #define FMT_SECOND 0         /* second G0 designation code (ext->charset_code[1]); 8 => Polish when FMT_NATIONAL == 0 */
 #endif
 
-#ifdef C02FMT_ROWS            /* the 52 KB decoder and the 9 KB vbi_page are compiled in only for the row obligations */
+#ifdef C02FMT_ROWS            /* the (carved, 6 KB) decoder and the 9 KB vbi_page are compiled in only for the row obligations */
 static vbi_decoder VBI;
 static vbi_page PG;
 #endif
@@ -105,9 +99,9 @@ struct c02_guard nondet_c02_guard(void);
 #endif
 #endif
 
+#ifdef C02FMT_ROWS
 static const vbi_rgba ref_default_cmap8[8] = { 0xFF000000u, 0xFF0000FFu, 0xFF00FF00u, 0xFF00FFFFu, 0xFFFF0000u, 0xFFFF00FFu, 0xFFFFFF00u, 0xFFFFFFFFu };
 
-#ifdef C02FMT_ROWS
 static void setup_decoder(unsigned code0, unsigned code1)
 {
   struct ttx_extension *ext = &VBI.vt.default_magazine.extension;
@@ -140,29 +134,26 @@ static cache_page *setup_page(unsigned national, unsigned flags)
  * (b) Level 1 formatting of one row
  * ===================================================================================================== */
 #ifdef C02FMT_ROWS
-#define SENTINEL 0x2603u
-/* every cell of the output gets a sentinel before the call: the write set of the formatter is observable */
-static void prefill_page(void)
-{ unsigned k; for (k = 0; k < 25 * 41; k++) { PG.text[k].unicode = SENTINEL; PG.text[k].size = VBI_NORMAL_SIZE; }
-  for (k = 0; k < 6; k++) { PG.nav_link[k].pgno = 0x7A7A; PG.nav_link[k].subno = 0x5B5B; }
-  for (k = 0; k < 64; k++) PG.nav_index[k] = (char) 0x6C; }
-/* frame: formatting rows 0..last touches text rows 0..last (+1 for a double height row `dh_row`) and the artificial
-   column 41 (index 40) of rows 0..24 (column_41), nothing else in text[]; the members around text[] have their documented
-   values (an index running off text[] lands in `dirty`; CBMC's own bounds check covers only the end of vbi_page) */
-static int frame_ok(unsigned last, int dh_row)
+/* frame: PG is a static zero object and the formatter never produces unicode 0, so "all zero" marks an untouched cell.
+   Formatting rows 0..last touches text rows 0..last (+ the row below a double height row) and the artificial column 41
+   (index 40) of rows 0..24 (column_41), nothing else in text[]; the members around text[] have their documented values
+   (an index running off text[] lands in `dirty`; CBMC's own bounds check only covers the end of the enclosing vbi_page) */
+static int cell_zero(unsigned k) { vbi_char a = PG.text[k]; return a.unicode == 0 && a.size == 0 && a.opacity == 0 && a.foreground == 0 && a.background == 0; }
+static int frame_ok(unsigned last)
 { unsigned r, c; int ok = 1;
-  for (r = last + 1; r < 25; r++) { if ((int) r == dh_row) continue; for (c = 0; c < 40; c++) ok &= (PG.text[r * 41 + c].unicode == SENTINEL); }
-  for (c = 25 * 41; c < 1056; c++) ok &= (PG.text[c].unicode == 0);
+  for (r = last + 1; r < 25 && r < last + 3; r++) for (c = 0; c < 40; c++) ok &= cell_zero(r * 41 + c);   /* the two rows that follow */
+  for (c = 25 * 41; c < 1056; c++) ok &= cell_zero(c);                                                   /* the unused tail of text[] */
   ok &= (PG.columns == 41);
   ok &= (PG.dirty.y0 == 0 && PG.dirty.y1 == 24 && PG.dirty.roll == 0);
-  for (r = 0; r < 6; r++) ok &= (PG.nav_link[r].pgno == 0x7A7A && PG.nav_link[r].subno == 0x5B5B);
-  for (r = 0; r < 64; r++) ok &= (PG.nav_index[r] == (char) 0x6C);
+  for (r = 0; r < 6; r++) ok &= (PG.nav_link[r].pgno == 0 && PG.nav_link[r].subno == 0);
+  for (r = 0; r < 64; r++) ok &= (PG.nav_index[r] == 0);
   return ok; }
 
 #ifdef FMT_PLAN
-/* Size plans for the double height obligation: the size codes of the row are concrete (the formatter's lower-row pass
-   advances its column index by the size it finds, a symbolic size makes that index symbolic and the query intractable,
-   measured), every other column is either received as planned or hit by a parity error (=> space): 2^k rows per plan. */
+/* Double height / double size: concrete rows.  The formatter's lower-row pass advances its column index by the size it
+   reads back from the upper row; any symbolic byte in the row makes every later size - and with it that index into the 9 KB
+   vbi_page - symbolic, and the query was measured intractable (see report).  So the double height obligation runs on three
+   concrete rows that exercise every size transition; symbolic there: the national option (0..6) and the C5/C6 page flags. */
 static const uint8_t fmt_plan[3][40] = {
   { 0x0D, 'A', 0x01, 'b', 0x1D, 0x07, 'c', 0x0C, 'd', 0x0F, 'E', 'x', 'F', 'y', 0x11, 0x1E, 0x7F, 0x12, 0x35, 0x0C,
     0x13, 0x66, 0x0E, 'g', 'h', 0x0B, 0x0B, 'i', 'j', 0x0A, 0x0A, 0x0D, 0x08, 'k', 0x18, 'l', 0x0F, 'M', 'n', 'o' },
@@ -171,45 +162,51 @@ static const uint8_t fmt_plan[3][40] = {
   { 0x0F, 0x14, 0x1E, 0x3F, 0x0D, 0x10, 0x5B, 0x60, 0x0F, 0x18, 0x7E, 0x02, 0x7B, 0x7C, 0x0E, 0x0D, 0x05, 0x1D, 0x0F, 'W',
     'v', 0x0C, 0x08, 0x0D, 0x06, 'Q', 0x09, 0x0C, 0x0D, 0x1C, 0x0B, 0x0B, 0x0F, 0x11, 0x23, 0x5F, 0x0A, 0x0A, 0x0E, 0x0D },
 };
-static int fmt_is_size_code(unsigned v) { return v >= 0x0C && v <= 0x0F; }
 #endif
 
 V_HARNESS(h_fmt_row)
 {
-  cache_page *cp; struct ref_row R; uint8_t code[FMT_NSYM]; uint8_t tx[40]; uint64_t errmask; unsigned flags, c; int ok;
+  cache_page *cp; struct ref_row R; uint8_t code[FMT_NSYM]; uint8_t tx[40]; uint64_t errmask; unsigned flags, c, national; int ok;
   vbi_opacity page_op, box_op;
   V_INIT();
   in_bytes(code, FMT_NSYM); errmask = in_u64(); flags = 0;
   { unsigned f = in_u8(); if (f & 1) flags |= C5_NEWSFLASH; if (f & 2) flags |= C6_SUBTITLE; }
+  national = in_u8() % 7u;
+#ifndef FMT_PLAN
+  national = FMT_NATIONAL;
+#endif
   setup_decoder(0, FMT_SECOND);
-  cp = setup_page(FMT_NATIONAL, flags);
+  cp = setup_page(national, flags);
   /* the transmitter: 7-bit codes with odd parity; errmask flips the parity bit of a column (=> parity error at the receiver) */
   for (c = 0; c < 40; c++) {
 #ifdef FMT_PLAN
-    unsigned v = fmt_plan[FMT_PLAN][c];
-    unsigned bad = fmt_is_size_code(v) ? 0u : (unsigned) ((errmask >> c) & 1u);
-    uint8_t good_byte = (uint8_t) ref_par8(v), bad_byte = (uint8_t) (ref_par8(v) ^ 0x80u);
-    tx[c] = bad ? bad_byte : good_byte;             /* a choice between two constants: the formatter's size decisions stay concrete */
+    tx[c] = (uint8_t) ref_par8(fmt_plan[FMT_PLAN][c]);
 #else
     unsigned v = (c >= FMT_FIRST && c < FMT_FIRST + FMT_NSYM) ? (code[c - FMT_FIRST] & 0x7Fu) : 0x20u;
+#if FMT_ROW != 1
+    /* EN 300 706 12.2: double height / double size are not used in the header row and in rows 23, 24: such codes are sent as SPACE
+       (mapped, not assumed away: the same set of rows, and every input file replays) */
+    if (v == 0x0D || v == 0x0F) v = 0x20;
+#endif
     unsigned bad = (c >= FMT_FIRST && c < FMT_FIRST + FMT_NSYM) ? (unsigned) ((errmask >> (c - FMT_FIRST)) & 1u) : 0u;
     tx[c] = (uint8_t) (ref_par8(v) ^ (bad ? 0x80u : 0u));
 #endif
+#if FMT_ROW == 0
+    if (c < 8) { static const uint8_t hdr[8] = { 0x02, '1', '0', '0', '.', '0', '0', 0x07 };   /* "\2%x.%02x\7" for page 100.00: generated by the formatter */
+      tx[c] = (uint8_t) ref_par8(hdr[c]); }
+#endif
     CPMEM.raw_flat[FMT_ROW * 40 + c] = tx[c];
   }
-#if FMT_ROW != 1
-  /* EN 300 706 12.2: double height / double size shall not be used in rows 23 and 24 */
-  for (c = 0; c < FMT_NSYM; c++) V_ASSUME((code[c] & 0x7Fu) != 0x0D && (code[c] & 0x7Fu) != 0x0F);
+#if FMT_ROW == 0
+  { typedef char fmt_window_check[(FMT_FIRST) >= 8 ? 1 : -1]; }
 #endif
-  prefill_page();
-
   ok = vbi_format_vt_page(&VBI, &PG, cp, VBI_WST_LEVEL_1, FMT_DISPLAY_ROWS, FALSE);
   V_ASSERT(ok, "fmt_accepts_lop");
   V_ASSERT(PG.pgno == 0x100 && PG.subno == 0 && PG.rows == FMT_DISPLAY_ROWS && PG.columns == 41, "fmt_page_header_fields");
 
   /* --- character set designation end to end: header national bits -> font --- */
-  V_ASSERT(PG.font[0] == &vbi_font_descriptors[FMT_NATIONAL], "fmt_font_primary");
-  V_ASSERT(PG.font[1] == &vbi_font_descriptors[(FMT_SECOND & ~7) + FMT_NATIONAL], "fmt_font_secondary");
+  V_ASSERT(PG.font[0] == &vbi_font_descriptors[national], "fmt_font_primary");
+  V_ASSERT(PG.font[1] == &vbi_font_descriptors[(FMT_SECOND & ~7) + national], "fmt_font_secondary");
 
   /* --- page / boxed opacity as format.h documents them --- */
   page_op = (flags & (C5_NEWSFLASH | C6_SUBTITLE)) ? VBI_TRANSPARENT_SPACE : VBI_OPAQUE;
@@ -218,8 +215,8 @@ V_HARNESS(h_fmt_row)
   V_ASSERT(PG.screen_color == VBI_BLACK && PG.screen_opacity == page_op, "fmt_screen_color");
 
   /* --- reference: EN 300 706 12.2 --- */
-  V_ASSERT(ref_t32_subset(FMT_NATIONAL) >= 0 && ref_t32_subset((FMT_SECOND & ~7) + FMT_NATIONAL) >= 0, "harness_config_sets_transcribed");
-  ref_row_l1(&R, tx, ref_t32_subset(FMT_NATIONAL), ref_t32_subset((FMT_SECOND & ~7) + FMT_NATIONAL));
+  V_ASSERT(ref_t32_subset(national) >= 0 && ref_t32_subset((FMT_SECOND & ~7) + national) >= 0, "harness_config_sets_transcribed");
+  ref_row_l1(&R, tx, ref_t32_subset(national), ref_t32_subset((FMT_SECOND & ~7) + national));
 
   for (c = 0; c < 40; c++) {
     vbi_char a = PG.text[FMT_ROW * 41 + c];
@@ -243,7 +240,6 @@ V_HARNESS(h_fmt_row)
   if (R.dh_cell) {
     V_REACH("double_height");
     V_ASSERT(PG.double_height_lower == 4, "fmt_dh_lower_flag");
-    V_ASSERT(frame_ok(1, 2), "fmt_frame_dh");
     for (c = 0; c < 40; c++) {
       vbi_char a = PG.text[2 * 41 + c];
       struct ref_cell e = R.cell[c];
@@ -261,18 +257,18 @@ V_HARNESS(h_fmt_row)
       }
     }
   }
-  V_ASSERT(frame_ok(2, -1), "fmt_frame");
+  V_ASSERT(frame_ok(2), "fmt_frame");
   if (!R.dh_code) {
     V_REACH("single_height");
     V_ASSERT(PG.double_height_lower == 0, "fmt_no_dh_flag");
-    V_ASSERT(frame_ok(1, -1), "fmt_rows_beyond_display_rows_untouched");
+    V_ASSERT(frame_ok(1), "fmt_rows_beyond_display_rows_untouched");
   }
 #else
   V_ASSERT(PG.double_height_lower == 0, "fmt_no_dh_flag");
   V_ASSERT(!R.dh_code && !R.dh_cell, "harness_no_dh_in_last_rows");
-  V_ASSERT(frame_ok(FMT_ROW, -1), "fmt_frame");
+  V_ASSERT(frame_ok(FMT_ROW), "fmt_frame");
   /* the neighbouring row transmitted spaces only */
-  for (c = 0; c < 40; c++) { vbi_char a = PG.text[(FMT_ROW - 1) * 41 + c];
+  for (c = 0; c < 40 && FMT_ROW > 1; c++) { vbi_char a = PG.text[(FMT_ROW > 1 ? FMT_ROW - 1 : 1) * 41 + c];
     V_ASSERT(a.unicode == 0x0020 && a.foreground == 7 && a.background == 0 && a.size == VBI_NORMAL_SIZE && !a.flash && !a.conceal && a.opacity == page_op, "fmt_other_row_unaffected"); }
 #endif
   if (R.saw_held) V_REACH("held_mosaic");
@@ -283,25 +279,28 @@ V_HARNESS(h_fmt_row)
   V_END();
 }
 
-/* Strict form of the held mosaic reset rule alone (Table 26, 1/E): short row, no KNOWN_ guard.  Separate so that the
-   deviation of the code under test is one obligation, not a blocker for the rest.  Row 24 (no double height there), the size
-   changes are normal size <-> double width. */
+/* Strict form of the held mosaic reset rule alone (Table 26, 1/E): short window, no KNOWN_ guard.  Separate so that the
+   deviation of the code under test is one obligation, not a blocker for the rest.  Header row (display_rows 1, cheap; no double
+   height there): the size changes are normal size <-> double width. */
 V_HARNESS(h_fmt_held_reset)
 {
+  static const uint8_t hdr[8] = { 0x02, '1', '0', '0', '.', '0', '0', 0x07 };
   cache_page *cp; struct ref_row R; uint8_t code[6]; uint8_t tx[40]; unsigned c; int ok;
   V_INIT();
   in_bytes(code, 6);
   setup_decoder(0, 0);
   cp = setup_page(0, 0);
-  for (c = 0; c < 40; c++) { tx[c] = (uint8_t) ref_par8(c < 6 ? (code[c] & 0x7Fu) : 0x20u); CPMEM.raw_flat[24 * 40 + c] = tx[c]; }
-  /* only mosaic/alpha colour codes, hold/release, size codes and characters: keeps the question on the reset rule */
+  /* only mosaic/alpha colour codes, hold/release, size codes and characters (anything else is sent as SPACE): keeps the
+     question on the reset rule */
   for (c = 0; c < 6; c++) { unsigned v = code[c] & 0x7Fu;
-    V_ASSUME(v >= 0x20 || v <= 0x07 || (v >= 0x10 && v <= 0x17) || v == 0x1E || v == 0x1F || v == 0x0C || v == 0x0E); }
-  ok = vbi_format_vt_page(&VBI, &PG, cp, VBI_WST_LEVEL_1, 25, FALSE);
+    if (!(v >= 0x20 || v <= 0x07 || (v >= 0x10 && v <= 0x17) || v == 0x1E || v == 0x1F || v == 0x0C || v == 0x0E)) v = 0x20;
+    code[c] = (uint8_t) v; }
+  for (c = 0; c < 40; c++) { tx[c] = (uint8_t) ref_par8(c < 8 ? hdr[c] : c < 14 ? code[c - 8] : 0x20u); CPMEM.raw_flat[c] = tx[c]; }
+  ok = vbi_format_vt_page(&VBI, &PG, cp, VBI_WST_LEVEL_1, 1, FALSE);
   V_ASSERT(ok, "fmt_accepts_lop");
   ref_row_l1_strict(&R, tx, ref_t32_subset(0), ref_t32_subset(0));
-  for (c = 0; c < 8; c++) {
-    vbi_char a = PG.text[24 * 41 + c];
+  for (c = 8; c < 16; c++) {
+    vbi_char a = PG.text[c];
     struct ref_cell e = R.cell[c];
     if (e.held_space) { V_ASSERT(a.unicode == 0x0020 || a.unicode == 0xEE20 || a.unicode == 0xEE00, "fmt_held_mosaic_reset_on_mode_or_size_change"); }
     else V_ASSERT(ref_glyph_equiv(a.unicode, e.unicode), "fmt_unicode");
@@ -320,8 +319,7 @@ V_HARNESS(h_cs_latin)
 {
   unsigned n, c, u; int pos, row;
   V_INIT();
-  n = in_u8(); c = in_u8();
-  V_ASSUME(n <= 13 && c >= 0x20 && c <= 0x7F);
+  n = in_u8() % 14u; c = 0x20u + in_u8() % 96u;
   u = vbi_teletext_unicode(LATIN_G0, (vbi_national_subset) n, c);
   V_ASSERT(u != 0 && u <= 0xFFFF, "cs_latin_nonzero_ucs2");
   pos = ref_t36_position(c);
@@ -344,9 +342,8 @@ V_HARNESS(h_cs_all)
 {
   unsigned s, n, c, u;
   V_INIT();
-  s = in_u8(); n = in_u8(); c = in_u8();
-  V_ASSUME(s >= LATIN_G0 && s <= SMOOTH_MOSAIC_G3 && n <= 13 && c >= 0x20 && c <= 0x7F);
-  V_ASSUME(!(s == BLOCK_MOSAIC_G1 && c >= 0x40 && c <= 0x5F));     /* documented precondition: G1 has no codes 4/0..5/F */
+  s = LATIN_G0 + in_u8() % 13u; n = in_u8() % 14u; c = 0x20u + in_u8() % 96u;
+  if (s == BLOCK_MOSAIC_G1 && c >= 0x40 && c <= 0x5F) c ^= 0x20;   /* documented precondition: G1 has no codes 4/0..5/F */
   u = vbi_teletext_unicode((vbi_character_set) s, (vbi_national_subset) n, c);
   V_ASSERT(u != 0 && u <= 0xFFFF, "cs_nonzero_ucs2");
   if (s == LATIN_G0 || s == CYRILLIC_1_G0 || s == CYRILLIC_2_G0 || s == CYRILLIC_3_G0 || s == GREEK_G0 || s == ARABIC_G0 || s == HEBREW_G0) {
@@ -365,8 +362,7 @@ V_HARNESS(h_cs_designation)
 {
   struct ttx_extension ext; cache_page *cp; struct vbi_font_descr *font[2]; unsigned code[2], national, i;
   V_INIT();
-  code[0] = in_u8(); code[1] = in_u8(); national = in_u8();
-  V_ASSUME(code[0] < 128 && code[1] < 128 && national < 8);    /* 7 bit designation code (X/28, M/29), 3 header bits */
+  code[0] = in_u8() & 0x7Fu; code[1] = in_u8() & 0x7Fu; national = in_u8() & 7u;    /* 7 bit designation code (X/28, M/29), 3 header bits */
   memset(&ext, 0, sizeof ext);
   ext.charset_code[0] = code[0]; ext.charset_code[1] = code[1];
   cp = setup_page(national, 0);
@@ -378,8 +374,10 @@ V_HARNESS(h_cs_designation)
     int want = -1;
     V_ASSERT(font[i] != 0 && idx >= 0 && idx < 88, "csd_font_in_table");
     V_ASSERT(font[i]->G0 >= LATIN_G0 && font[i]->G0 <= HEBREW_G0 && font[i]->G2 != 0 && (unsigned) font[i]->subset <= 13, "csd_font_usable");
-    if (ref_t32_defined(byhdr)) want = (int) byhdr;     /* the page header's option within the designated region */
-    else if (ref_t32_defined(code[i])) want = (int) code[i];   /* else the designation code as transmitted */
+    /* Table 32: the region comes from the designation code, the option within the region from C12-C14 of the page header
+       ("the three least significant bits will be replaced", vbi_teletext_set_default_region).  Where Table 32 reserves that
+       combination the standard defines nothing: only a usable font is required. */
+    if (ref_t32_defined(byhdr)) want = (int) byhdr;
     if (want >= 0) {
       V_ASSERT(idx == want, "csd_font_follows_table32");
       V_ASSERT(ref_t32_matches(want, (int) font[i]->G0, (int) font[i]->G2, (int) font[i]->subset), "csd_descriptor_is_table32_row");
